@@ -23,7 +23,7 @@ SCENARIOS = {
         "theorems": ["C01_reader_reachable", "C01_forest", "C01_invariant", "C01_checker_accepts", "C01_build", "C01_build_any", "C01_history",
                      "C01_checker_sound", "C01_inv_add", "C01_inv_append", "C01_inv_del", "C01_inv_clear"],
         "quick": [hist("c01", 150, extra=T1), hist("c01", 30), hist("c14", 12, extra=T1)],
-        "thorough": [hist("c01", 1200, "thorough", extra=T1), hist("c01", 300, "thorough"), hist("c14", 60, "thorough", extra=T1)],
+        "thorough": [hist("c01", 480, "thorough", extra=T1), hist("c01", 120, "thorough"), hist("c14", 20, "thorough", extra=T1)],
         "counts": ["C01"],
     },
     "C04": {
@@ -31,7 +31,7 @@ SCENARIOS = {
         "theorems": ["C04_createSplit_length", "C04_createSplit_length_bq", "C04_normal_lengths_reachable", "C04_selfLookup_reachable_split", "C04_selfLookup_reachable_given_lengths", "C04_selfLookup_reachable_bq", "C04_stored_length_reachable", "C04_routed_all_histories", "C04_routed", "C04_checker", "C04_selfLookup", "C04_selfLookup_symm", "C04_selfLookup_by_item", "C04_routed_meaning", "C04_readerFirst_spec",
                      "C04_side_eq_readerFirst"],
         "quick": [hist("c04", 120, extra=T1), hist("c04", 10, extra=CH)],
-        "thorough": [hist("c04", 1200, "thorough", extra=T1), hist("c04", 300, "thorough"), hist("c04", 80, "thorough", extra=CH)],
+        "thorough": [hist("c04", 480, "thorough", extra=T1), hist("c04", 120, "thorough"), hist("c04", 30, "thorough", extra=CH)],
         "counts": ["C04"],
     },
     "C05": {
@@ -39,7 +39,7 @@ SCENARIOS = {
         "theorems": ["C05_history", "C05_history_presence", "C05_history_reader", "C05_build_never_changes_spec", "C05_overwrite_last_wins", "C05_delete_reports_presence", "C05_history_transactions", "C05_bq_readback", "C05_build_preserves", "C05_add", "C05_append", "C05_del", "C05_clear", "C05_contains", "C05_vector", "C05_readback_f32",
                      "C05_iter", "C05_isEmpty", "C05_refines", "C05_bq_readback_given_roundtrip"],
         "quick": [hist("c05", 120, extra=T1)],
-        "thorough": [hist("c05", 1500, "thorough", extra=T1), hist("c05", 200, "thorough")],
+        "thorough": [hist("c05", 600, "thorough", extra=T1), hist("c05", 80, "thorough")],
         "counts": ["C05"],
     },
     "C06": {
@@ -47,7 +47,7 @@ SCENARIOS = {
         "theorems": ["C06_history", "C06_history_open", "C06_opens_right_after_build", "C06_noop_history", "C06_status_agrees", "C06_build_clears_marks", "C06_open_char", "C06_needBuild_char", "C06_marks", "C06_noop", "C06_clear", "C06_frame",
                      "C06_names_distinct", "C06_wrong_metric"],
         "quick": [hist("c06", 150, extra=T1)],
-        "thorough": [hist("c06", 1500, "thorough", extra=T1), hist("c06", 200, "thorough")],
+        "thorough": [hist("c06", 600, "thorough", extra=T1), hist("c06", 80, "thorough")],
         "counts": ["C06"],
     },
     "C02": {
@@ -55,7 +55,7 @@ SCENARIOS = {
         "theorems": ["C02_history", "C02_history_by_vector", "C02_history_by_item", "C02_history_deleted_never_returned", "C02_history_count", "C02_history_overwritten", "C02_exact_reachable", "C02_bruteforce_reachable", "C02_exact", "C02_exact_usizeMax", "C02_exact_saturated", "C02_spec", "C02_unique", "C02_exact_bruteforce",
                      "C02_by_vector", "C02_by_item"],
         "quick": [hist("c02", 120, extra=T1), hist("c02", 20), hist("c14", 8, extra=T1)],
-        "thorough": [hist("c02", 1200, "thorough", extra=T1), hist("c02", 300, "thorough")],
+        "thorough": [hist("c02", 480, "thorough", extra=T1), hist("c02", 120, "thorough")],
         "counts": ["C02", "C01"],
     },
     "C03": {
@@ -63,7 +63,7 @@ SCENARIOS = {
         "theorems": ["C03_reported_sorted", "C03_reported_sorted_scores", "C03_by_item_eq_by_vector_bq", "C03_by_item_eq_by_vector_reachable", "C03_total_reachable", "C03_filter_exact_reachable", "C03_monotone_reachable", "C03_wellformed", "C03_total", "C03_filter_exact", "C03_default_budget", "C03_by_item_absent",
                      "C03_by_item_present", "C03_by_item_eq_by_vector", "C03_prefix", "C03_monotone", "C03_budget_le"],
         "quick": [hist("c03", 100, extra=T1)],
-        "thorough": [hist("c03", 1000, "thorough", extra=T1), hist("c03", 200, "thorough")],
+        "thorough": [hist("c03", 400, "thorough", extra=T1), hist("c03", 80, "thorough")],
         "counts": ["C03"],
     },
     "C07": {
@@ -71,7 +71,7 @@ SCENARIOS = {
         "theorems": ["C07_answers_nns", "C07_answers_build_nns", "C07_answers_nns_reachable", "C07_fuel_mono", "C07_prefix_index", "C07_prefix_kind", "C07_range", "C07_frame_add", "C07_frame_append", "C07_frame_del",
                      "C07_frame_clear", "C07_frame_prepare", "C07_frame_build", "C07_answers", "C07_dump_build"],
         "quick": [hist("c07", 120, extra=T1), hist("c07", 20), hist("c18", 30, extra=T1)],
-        "thorough": [hist("c07", 1200, "thorough", extra=T1), hist("c07", 300, "thorough")],
+        "thorough": [hist("c07", 480, "thorough", extra=T1), hist("c07", 120, "thorough")],
         "counts": ["C07"],
     },
     "C08": {
@@ -97,7 +97,7 @@ SCENARIOS = {
                      "C10_cancel_abort_retry"],
         "quick": [{"name": "faults", "args": ["faults", "--seed", "{seed}"]}, hist("c10", 30, extra=T1)],
         "thorough": [{"name": "faults", "args": ["faults", "--seed", "{seed}", "--tier", "thorough"], "timeout": 3000},
-                     hist("c10", 400, "thorough", extra=T1)],
+                     hist("c10", 160, "thorough", extra=T1)],
         "counts": ["C10", "C01"],
         "assumptions": ["the no-temp-file / no-descriptor clause rests on Rust's Drop; it is observed on the real process (fdcheck), not proved"],
     },
@@ -109,7 +109,7 @@ SCENARIOS = {
                      "C11_cosine_range", "C11_round", "C11_round_simd"],
         "quick": [{"name": "kernels", "args": ["kernels", "--seed", "{seed}"]}, hist("c11", 40, extra=T1)],
         "thorough": [{"name": "kernels", "args": ["kernels", "--seed", "{seed}", "--tier", "thorough"], "timeout": 3000},
-                     hist("c11", 500, "thorough", extra=T1)],
+                     hist("c11", 200, "thorough", extra=T1)],
         # end to end: the distances a query reports (C03/C02 predicates on the answers of the c11 histories)
         "counts": ["C11", "C03", "C02"],
         "nontrivial": "any",
@@ -128,7 +128,7 @@ SCENARIOS = {
                   hist("c12", 30, extra=T1)],
         "thorough": [{"name": "bq", "args": ["bq", "--seed", "{seed}", "--tier", "thorough"], "timeout": 3000},
                      {"name": "kernels", "args": ["kernels", "--seed", "{seed}", "--tier", "thorough"], "timeout": 3000},
-                     hist("c12", 600, "thorough", extra=T1)],
+                     hist("c12", 240, "thorough", extra=T1)],
         "counts": ["C12", "C05"],
         "nontrivial": "any",
     },
@@ -138,7 +138,7 @@ SCENARIOS = {
                      "C13_fresh_gen"],
         "quick": [{"name": "ids", "args": ["ids", "--seed", "{seed}"]}, hist("c13", 60)],
         "thorough": [{"name": "ids", "args": ["ids", "--seed", "{seed}", "--tier", "thorough"], "timeout": 3000},
-                     hist("c13", 500, "thorough")],
+                     hist("c13", 200, "thorough")],
         "counts": ["C13", "C01"],
         "assumptions": ["each atomic cell is sequentially consistent in the model (Relaxed orderings beyond per-operation atomicity are not modelled)"],
     },
@@ -147,8 +147,8 @@ SCENARIOS = {
         "theorems": ["C14_loop_measure_bound", "C14_build_terminates_explicit", "C14_build_terminates_ntrees", "C14_build_terminates_default", "C14_fair_round_decreases", "C14_round_above_cap_decreases", "C14_round_measure", "C14_terminates_above_cap", "C14_fair_terminates", "C14_fuel_needs_small_batch", "C14_fuel_needs_unfair_round", "C14_build_terminates_above_cap", "C14_build_terminates_fair", "C14_any_memory_forest", "C14_any_memory", "C14_insert_terminates", "C14_makeT_fuel", "C14_resplit_makes_node", "C14_livelock_before_fix",
                      "C14_build_fuel_forest", "C14_reify_total", "C14_deleteTree_total"],
         "quick": [hist("c14", 125, extra=T1, timeout=900), hist("c14inc", 12, extra=T1, timeout=900), hist("c14first", 20, extra=T1, timeout=900)],   # 125 = the whole grid items x split_after x memory
-        "thorough": [hist("c14", 600, "thorough", extra=T1, timeout=3400), hist("c14", 100, "thorough", timeout=3400),
-                     hist("c14inc", 120, "thorough", extra=T1, timeout=3400), hist("c14first", 200, "thorough", extra=T1, timeout=3400)],
+        "thorough": [hist("c14", 175, "thorough", extra=T1, timeout=3400), hist("c14", 40, "thorough", timeout=3400),
+                     hist("c14inc", 50, "thorough", extra=T1, timeout=3400), hist("c14first", 80, "thorough", extra=T1, timeout=3400)],
         "counts": ["C14", "C01", "C02"],
         "assumptions": ["termination of the re-split loop is probabilistic in the real code (a random split may keep all items on one side); "
                         "proved: progress when the batch exceeds the capacity, the livelock fixed point otherwise; observed: poll-limit hang detection"],
@@ -157,7 +157,7 @@ SCENARIOS = {
         "modules": ["C15", "C15Build", "Unconditional"],
         "theorems": ["C15_capacity_all_histories", "C15_root_count", "C15_single", "C15_capacity", "C15_requested", "C15_auto", "C15_auto_cases", "C15_cap"],
         "quick": [hist("c15", 200, extra=T1), {"name": "faults:sweep", "args": ["faults", "--seed", "{seed}", "--part", "sweep"]}],
-        "thorough": [hist("c15", 1500, "thorough", extra=T1), hist("c15", 300, "thorough")],
+        "thorough": [hist("c15", 600, "thorough", extra=T1), hist("c15", 120, "thorough")],
         "counts": ["C15", "C10"],
     },
     "C17": {
@@ -173,7 +173,7 @@ SCENARIOS = {
         "theorems": ["C18_build_after_change_reachable", "C18_build_right_after_change_reachable", "C18_needs_build_after_change", "C18_needs_build_until_built", "C18_change_keeps_reachable", "C18_routed_after_change_reachable", "C18_same", "C18_change", "C18_f32_to_f32", "C18_to_bq", "C18_from_bq", "C18_old_metric_refused",
                      "C18_old_metric_refused_after_build"],
         "quick": [hist("c18", 98, extra=T1)],
-        "thorough": [hist("c18", 980, "thorough", extra=T1)],
+        "thorough": [hist("c18", 392, "thorough", extra=T1)],
         "counts": ["C18", "C01", "C02"],
     },
     "C20": {
@@ -181,8 +181,8 @@ SCENARIOS = {
         "theorems": ["C20_createSplit_total", "C20_createSplit_bounded", "C20_degenerate_forest", "C20_side_total", "C20_sideSplit_total", "C20_search_total", "C20_search_wellformed", "C20_order_total",
                      "C20_readback_any_bits", "C20_empty_side_random", "C20_build_fuel"],
         "quick": [hist("c20", 84, extra=T1, timeout=1500), hist("c20", 7, extra=CH, timeout=1500)],
-        "thorough": [hist("c20", 420, "thorough", extra=T1, timeout=3400), hist("c20", 84, "thorough", timeout=3400),
-                     hist("c20", 42, "thorough", extra=CH, timeout=3400)],
+        "thorough": [hist("c20", 210, "thorough", extra=T1, timeout=3400), hist("c20", 30, "thorough", timeout=3400),
+                     hist("c20", 20, "thorough", extra=CH, timeout=3400)],
         "counts": ["C20", "C01", "C03", "C05"],
         "assumptions": ["bounded build time on degenerate data is observed (poll limit), termination of the re-split loop being probabilistic"],
     },
@@ -190,7 +190,7 @@ SCENARIOS = {
         "modules": ["C19", "C19History"],
         "theorems": ["C19_append_accepted_iff", "C19_rejected_history", "C19_rejected_item_calls", "C19_query_dim_history", "C19_dim_add", "C19_dim_append", "C19_dim_query", "C19_append", "C19_del_absent", "C19_needBuild_unchanged"],
         "quick": [hist("c19", 150, extra=T1)],
-        "thorough": [hist("c19", 1000, "thorough", extra=T1)],
+        "thorough": [hist("c19", 400, "thorough", extra=T1)],
         "counts": ["C19"],
     },
     "C16": {
@@ -199,7 +199,7 @@ SCENARIOS = {
                      "C16_roaring_size", "C16_roaring_offsets", "C16_layout", "C16_key_len", "C16_key_order", "C16_key_roundtrip", "C16_key_inj",
                      "C16_nodeid_roundtrip", "C16_version_roundtrip"],
         "quick": [{"name": "keys", "args": ["keys", "--seed", "{seed}"]}, hist("c16", 60, extra=["--threads", "1"])] + FIXTURES,
-        "thorough": [{"name": "keys", "args": ["keys", "--seed", "{seed}", "--tier", "thorough"]}, hist("c16", 300, "thorough", extra=["--threads", "1"])] + FIXTURES,
+        "thorough": [{"name": "keys", "args": ["keys", "--seed", "{seed}", "--tier", "thorough"]}, hist("c16", 120, "thorough", extra=["--threads", "1"])] + FIXTURES,
         "nontrivial": "builds_splits",
         "counts": ["C16"],
         "assumptions": ["little-endian host for the native-endian fields (f32 components, roots, quantised words)"],
